@@ -31,7 +31,8 @@ ASSUMPTIONS = ['scheduling points: every non-thread-local bytecode instruction o
                'sampling parts of the quantifier (random multi-preemption schedules, free-running stress) are replaced '
                'by the complete <=2-preemption exploration; a short free-running pass is reported as a diagnostic only']
 
-KINDS = ['hit', 'ctx', '404', '405', 'fall', 'exc', 'redir', 'hit2', 'app2']   # app2: served by a second Application
+KINDS = ['hit', 'ctx', '404', '405', 'fall', 'exc', 'redir', 'hit2', 'app2', 'q405', 'qpost']
+# app2: served by a second Application; q405/qpost: a path with a GET-only and a POST-only route
 
 
 def deadline_passed():
@@ -46,7 +47,10 @@ class World(object):
         from werkzeug.wrappers import Response
         self.ids = []
         self.all_ids = set()
+        self.guids = []
+        self.all_guids = set()
         ids = self.ids
+        guids = self.guids
 
         class Stamp(Middleware):
             provides = ('val', 'ds_seen')
@@ -88,19 +92,25 @@ class World(object):
 
         def boom(val):
             raise ValueError('boom %s' % val)
-        self.harness_funcs = [Stamp.request, PerReq.request, PerReq.endpoint, ep, ep_ctx, render, nb, second, boom]
+
+        def second_q(val, x, request):
+            return Response('posted|%s|%s|%s' % (val, x, request.headers.get('X-Tok')))
+        self.harness_funcs = [Stamp.request, PerReq.request, PerReq.endpoint, ep, ep_ctx, render, nb, second, boom, second_q]
         from werkzeug.wrappers import Request
 
         class RecordingRequest(Request):
             def __setattr__(self, name, value):
                 if name == 'request_id':
                     ids.append(value)
+                elif name == 'request_guid':
+                    guids.append(value)
                 Request.__setattr__(self, name, value)
 
         class App(Application):
             request_type = RecordingRequest
         self.app = App([GET('/a/<x>', ep), ('/b/<x>/', ep), ('/c/<x>', ep_ctx, render), ('/n', nb), ('/n', second),
-                                ('/boom', boom), POST('/p', lambda: Response('p')), ('/d/<x:int>', ep)],
+                                ('/boom', boom), POST('/p', lambda: Response('p')), ('/d/<x:int>', ep),
+                                GET('/q/<x>', ep), POST('/q/<x>', second_q)],
                                middlewares=[Stamp(), PerReq()])
 
         self.app2 = App([GET('/z/<x>', ep)], middlewares=[Stamp(), PerReq()])
@@ -110,7 +120,8 @@ class World(object):
         h = {'X-Tok': tok}
         return {'hit': ('/a/' + tok, 'GET'), 'ctx': ('/c/' + tok, 'GET'), '404': ('/zz/' + tok, 'GET'), '405': ('/p', 'GET'),
                 'fall': ('/n', 'GET'), 'exc': ('/boom', 'GET'), 'redir': ('/b/' + tok, 'GET'),
-                'hit2': ('/d/' + str(len(tok) * 7 + ord(tok[-1])), 'GET'), 'app2': ('/z/' + tok, 'GET')}[kind] + (q, h)
+                'hit2': ('/d/' + str(len(tok) * 7 + ord(tok[-1])), 'GET'), 'app2': ('/z/' + tok, 'GET'),
+                'q405': ('/q/' + tok, 'PUT'), 'qpost': ('/q/' + tok, 'POST')}[kind] + (q, h)
 
     def serve(self, kind, tok):
         path, method, q, h = self.request_for(kind, tok)
@@ -171,7 +182,11 @@ def work_items(tier):
 
 def explore_combo(acc, w, kinds, bound, part):
     toks = ['t%dq' % (i + 1) + 'xyz'[i % 3] for i in range(len(kinds))]
-    seq = [w.serve(k, t) for k, t in zip(kinds, toks)]
+    # what each request gets when served alone: by a *fresh* application, so that damage an earlier request
+    # did to the shared one cannot hide in the baseline
+    seq = []
+    for k, t in zip(kinds, toks):
+        seq.append(World().serve(k, t))
     nontrivial = len(set(seq)) > 1
     bodies = [(lambda k=k, t=t: w.serve(k, t)) for k, t in zip(kinds, toks)]
     label = '+'.join(kinds)
@@ -206,12 +221,22 @@ def explore_combo(acc, w, kinds, bound, part):
                               {'kinds': list(kinds), 'bound': bound, 'choices': list(run.choices)})
                 break
         w.all_ids.update(i for i in ids if i is not None)
+        gs = list(w.guids)
+        del w.guids[:]
+        for g in gs:
+            if g in w.all_guids:
+                acc.violation('C12:request-guid-reused', 'request guid %r was assigned twice in this process (threads %r)' % (g, kinds),
+                              {'kinds': list(kinds), 'bound': bound, 'choices': list(run.choices)})
+                break
+            w.all_guids.add(g)
     first_choices = None
     if part is not None:
         split = B2_SPLIT if bound == 2 else 4
         first_choices = lambda i: i % split == part
     w.all_ids.update(i for i in w.ids if i is not None)
     del w.ids[:]
+    w.all_guids.update(w.guids)
+    del w.guids[:]
     gc.disable()
     try:
         st = sched.explore(bodies, bound, on_exec, first_choices=first_choices)
@@ -310,7 +335,7 @@ def replay(case):
     w, _ = setup_world()
     kinds = case['kinds']
     toks = ['t%dq' % (i + 1) + 'xyz'[i % 3] for i in range(len(kinds))]
-    seq = [w.serve(k, t) for k, t in zip(kinds, toks)]
+    seq = [World().serve(k, t) for k, t in zip(kinds, toks)]
     bodies = [(lambda k=k, t=t: w.serve(k, t)) for k, t in zip(kinds, toks)]
     del w.ids[:]
     run, results = sched.run_once(bodies, case['choices'], bound=case.get('bound', 1))
